@@ -963,12 +963,22 @@ class GroupBy:
                     pointer = slice(None)
                 else:
                     pointer = self._group_key_pointers[first_chunk_in + j]
-                combined[pointer] = numba_funcs.reduce_array_pair(
-                    combined[pointer],
+                left = combined[pointer]
+                temporal_sum = (
+                    reducer is numba_funcs.ScalarFuncs.sum and left.dtype.kind in "mM"
+                )
+                if temporal_sum:
+                    # two datetimes cannot be added: add their integer representations
+                    left, result = left.view("int64"), result.view("int64")
+                merged = numba_funcs.reduce_array_pair(
+                    left,
                     result,
                     reducer=reducer,
                     counts=count[pointer],
                     y_counts=counts_one_value[j][:-1],
+                )
+                combined[pointer] = (
+                    merged.view(combined.dtype) if temporal_sum else merged
                 )
                 count[pointer] += counts_one_value[j][:-1]  # ignore null group
             individual_results.append((combined, count))
